@@ -18,6 +18,19 @@ Sections  `begin kind=server` (rest.NewServer + AddRoutes + engine.bindRoutes, n
       (Server.AddRoutes / AddRoute with the options in order; the same slice any number of times.
        Model: `Api` (groups alias the caller's slices).  Monitor: the routes as the callers WROTE them, options
        applied to a copy (`Group.regs`); every caller slice must read as written.)
+Round 5:
+  req … [ctx=<k=v,…>] [beh=<kind>]   the request arrives with path variables of an outer router in its context;
+      the user handler that runs behaves as <kind>: w<code> (writes that status), perr / pstr / pabort (panics with an
+      error / a string / http.ErrAbortHandler), goexit.  Outcomes then carry ` status=<c>` (a route handler's response
+      status when not 200), ` end=<kind>` (the handler that ran behaved so), ` esc=<panic|goexit>` (it left ServeHTTP).
+  opt cors                           rest.WithCors(): OPTIONS requests => `204 cors`; the not-allowed handler is cors.NotAllowedHandler
+                                     (outcome `na=204404 code=404`)
+  opt router                         rest.WithRouter(router.NewRouter())
+  use id=<k>                => ok    Server.Use(middleware u<k>) (trail tokens u<k>, outside the route's own middlewares)
+  start                     => listen | panic:<verdict>   Server.Start() on a port that cannot be opened
+  cfg must=1                         the server is built by rest.MustNewServer
+  herr k=<kind> => returned | panic:same-error | panic:other     handleError(err) for every class of error value
+  other m=<method> p=<path> => clean=… <outcome>   a second rest.Server (route GET /other/:o -> h=9999) serves the request
 Sections  `begin kind=tree` (core/search.Tree directly, raw strings):
   tadd p=<route> h=<id|nil>   => ok|dup|dupslash|notfromroot|empty
   tsearch p=<route> n=<k>     => h=<id> vars=… | none          (distinct outcomes, sorted, ` | `-separated)
@@ -44,6 +57,9 @@ def fmtVars (ps : List (String × String)) : String :=
   ",".intercalate (sortStr (ps.map fun (k, v) => k ++ "=" ++ v))
 
 def fmtHit (h : H) (ps : Params) : String := s!"h={h} vars={fmtVars (paramMap ps)}"
+
+/-- the hit as the handler sees it when the request arrived with the context `c` (`delivered`). -/
+def fmtHitC (c : Ctx) (h : H) (ps : Params) : String := s!"h={h} vars={fmtVars (delivered c ps)}"
 
 def fmtOutcome : Outcome → String
   | .handler h ps => fmtHit h ps
@@ -115,13 +131,16 @@ def customOf (pr : PatRouter) : Spec.Custom :=
 /-- harness convention: a custom handler whose id is a 4xx/5xx number writes that status, others write nothing. -/
 def ownCode (h : H) : Option Nat := if 400 ≤ h ∧ h ≤ 599 then some h else none
 
-def fmtResponse : Response → String
+def fmtResponse (resp : Response) (panics : Bool := false) : String :=
+  match resp with
   | .route h ps => fmtHit h ps
-  | .customNotAllowed h => s!"na={h} code={(ownCode h).getD 200}"
+  -- (cors.NotAllowedHandler answers 404 for every method but OPTIONS, which never reaches it behind the corsRouter)
+  | .customNotAllowed h => s!"na={h} code={(ownCode h).getD (if h = corsNA then 404 else 200)}"
   | .defaultNotAllowed a => "405 allow=" ++ ",".intercalate (sortStr a)
   | .customNotFound (.plain h) => s!"nf={h} code={(ownCode h).getD 200}"
   -- engine.notFoundHandler: next runs, then `cw.WriteHeader(404)` (ignored when next wrote a status)
-  | .customNotFound (.engine (some h)) => s!"nf={h} code={(ownCode h).getD 404}"
+  -- (a handler that panics or calls runtime.Goexit never returns to the wrapper: no 404 is forced)
+  | .customNotFound (.engine (some h)) => s!"nf={h} code={(ownCode h).getD (if panics then 200 else 404)}"
   | .customNotFound (.engine none) => "404"
   | .defaultNotFound => "404"
 
@@ -168,9 +187,10 @@ def fmtVerdict (c : Spec.Custom) (m : String) (toks : List String) (impl : Strin
     | some h => some s!"expected the custom not-found handler [nf={h}] (no route of any method matches) got [{impl}]"
 
 /-- the property's verdict on one observed outcome of a request. `none` = fine. -/
-def monitorReq (tbl : Spec.Table) (hyp : Bool) (c : Spec.Custom) (m path : String) (impl : String) : Option String :=
+def monitorReq (tbl : Spec.Table) (hyp : Bool) (c : Spec.Custom) (m path : String) (impl : String)
+    (outer : List (String × String) := []) : Option String :=
   let toks := if rooted path then some (cleanToks path) else none
-  fmtVerdict c m (toks.getD []) impl (Spec.monitorObs tbl hyp c m toks (parseObs impl))
+  fmtVerdict c m (toks.getD []) impl (Spec.monitorObsCtx tbl hyp c m toks outer (parseObs impl))
 
 
 /-! ### rest.Server public API: route options, listings, per-route settings -/
@@ -216,18 +236,11 @@ def parseSlices (s : String) : List (String × List (String × String)) :=
   if s = "" then [] else (s.splitOn ";").map fun e =>
     (String.ofList (e.toList.takeWhile (· ≠ '=')), parseListing (String.ofList ((e.toList.dropWhile (· ≠ '=')).drop 1)))
 
-def tokenOk (jwt : Option (String × String)) (auth : Option String) : Bool :=
-  match jwt with
-  | none => true
-  | some (a, b) => match auth with
-    | some t => t == a || (b != "" && t == b)
-    | none => false
-
 def fmtTrail (n : Nat) : String := ".".intercalate ((List.range n).map fun i => toString (i + 1))
 
 /-- the settings of the bound route (method, cleaned pattern): the first group that contains it. -/
-def lookupRMeta (rmeta : List (String × List String × Option (String × String) × Nat)) (m : String) (pats : List String) :
-    Option (Option (String × String) × Nat) :=
+def lookupRMeta (rmeta : List (String × List String × Option (String × String) × List Layer)) (m : String) (pats : List String) :
+    Option (Option (String × String) × List Layer) :=
   (rmeta.find? fun x => x.1 == m && x.2.1 == pats).map (·.2.2)
 
 /-- split a trailing ` mw=<trail>` token off an outcome. -/
@@ -236,6 +249,17 @@ def splitTrail (o : String) : String × String :=
   match ts.find? (·.startsWith "mw=") with
   | some t => (joinSp (ts.filter (· ≠ t)), dropStr 3 t)
   | none => (o, "")
+
+/-- split the ` status=` / ` end=` / ` esc=` tokens (what the user handler did) off an outcome. -/
+def splitExtras (o : String) : String × Option String × Option String × Option String :=
+  let ts := (o.splitOn " ").filter (· ≠ "")
+  let isX (t : String) : Bool := t.startsWith "status=" || t.startsWith "end=" || t.startsWith "esc="
+  (joinSp (ts.filter (!isX ·)), arg "status=" ts, arg "end=" ts, arg "esc=" ts)
+
+def parseCtxVars (s : String) : List (String × String) :=
+  if s = "" then [] else (s.splitOn ",").map splitEq
+
+def behKinds : List String := ["w201", "w204", "w301", "w404", "w405", "w500", "w503", "perr", "pstr", "pabort", "goexit"]
 
 structure St where
   pr : PatRouter := {}
@@ -251,28 +275,39 @@ structure St where
   api : Api := {}                -- the aliasing model: caller slices + engine.routes
   names : List String := []      -- names of the caller slices (position = index in `api.heap`)
   written : List (List Reg) := []  -- the caller slices as written in the `slice` lines
-  rmeta : List (String × List String × Option (String × String) × Nat) := []  -- bound route ↦ (jwt, middlewares)
+  rmeta : List (String × List String × Option (String × String) × List Layer) := []  -- bound route ↦ (jwt, chain of bindRoute)
+  chain : Option Nat := none     -- rest.WithChain
+  cors : Bool := false           -- rest.WithCors: server.router is a corsRouter
+  uses : List Nat := []          -- Server.Use middlewares so far (ids, in Use order)
 
 def patKind (pats : List String) : String :=
   String.ofList (pats.map fun k => if isVar k then 'v' else if k = "" then 'r' else 'l')
 
 /-- all outcomes of `ServeHTTP` over all iteration orders. -/
-def serveAllX (pr : PatRouter) (method path : String) (dec : H → Params → String := fmtHit) : List String :=
+def serveAllX (pr : PatRouter) (method path : String) (dec : H → Params → String := fmtHit) (panics : Bool := false) : List String :=
   let own : List (H × Params) :=
     match pr.core.trees.lookup method with
     | some root => if rooted path then nextAll (cleanToks path) root else []
     | none => []
-  if own.isEmpty then [fmtResponse (pr.serveHTTP method path)]
+  if own.isEmpty then [fmtResponse (pr.serveHTTP method path) panics]
   else dedup (own.map fun (h, ps) => dec h ps)
 
 def hasUpper (s : String) : Bool := s.toList.any Char.isUpper
 
 /-- one `req` line (router and server sections). -/
-def runReq (r : Report) (st : St) (sidx : Nat) (l : Line) (m p : String) (auth : Option String := none) (srv : Bool := false) : Report := Id.run do
+def runReq (r : Report) (st : St) (sidx : Nat) (l : Line) (m p : String) (auth : Option String := none) (srv : Bool := false)
+    (outer? : Option String := none) (beh : Option String := none) : Report := Id.run do
   let mut r := r
-  let (implClean, outs) := match l.obs with
+  let (implClean, outsRaw) := match l.obs with
     | c :: rest => ((String.ofList (c.toList.drop 6)), splitBar rest)
     | [] => ("?", [])
+  -- what the user handler did (status= / end= / esc=) is judged separately; dispatch is judged on the rest
+  let outs := (outsRaw.map fun o => (splitExtras o).1).eraseDups
+  let outer := (outer?.map parseCtxVars).getD []
+  let ctx : Ctx := match outer? with
+    | some s => Ctx.withVars [] (parseCtxVars s)
+    | none => []
+  if outer?.isSome then r := r.addCover (if outer.isEmpty then "req-outer-context-empty-vars" else "req-outer-context-vars")
   if rooted p then
     if cleanPath p ≠ implClean then r := r.mismatch sidx l.idx s!"clean={cleanPath p}" s!"clean={implClean}"
     if cleanPath p ≠ p then r := r.addCover "req-needs-clean"
@@ -282,23 +317,28 @@ def runReq (r : Report) (st : St) (sidx : Nat) (l : Line) (m p : String) (auth :
     if p.toList.any (fun c => c.toNat > 127) then r := r.addCover "req-non-ascii-segment"
   else r := r.addCover "req-not-rooted"
   if !(validMethod m) then r := r.addCover "req-unsupported-method"
+  match beh with
+  | some b => if !(behKinds.contains b) then r := r.mismatch sidx l.idx "bad-op" s!"beh={b}"
+  | none => pure ()
   let hyp := Spec.oneVarPerPosition st.tbl
   let toksO := if rooted p then some (cleanToks p) else none
-  -- the settings (WithJwt secrets, rest.WithMiddlewares count) of the routes a hit on handler `h` can belong to
-  let rmetaOf : H → List (Option (String × String) × Nat) := fun h =>
+  -- the settings (WithJwt secrets, middleware trail) of the routes a hit on handler `h` can belong to
+  let rmetaOf : H → List (Option (String × String) × List Layer) := fun h =>
     (((Spec.admissible st.tbl m (toksO.getD [])).filter (·.h == h)).filterMap fun x =>
       lookupRMeta st.rmeta x.method x.pats).eraseDups
   -- engine.bindRoute: the Authorize handler of a WithJwt group sits in front of the route handler
   let dec : H → Params → String := fun h ps =>
     match rmetaOf h with
-    | [(jwt, n)] =>
-      if !(tokenOk jwt auth) then "401" else if n > 0 then fmtHit h ps ++ " mw=" ++ fmtTrail n else fmtHit h ps
-    | _ => fmtHit h ps
-  let all := serveAllX st.pr m p dec
+    | [(_, layers)] =>
+      let (tr, reached) := runChain auth layers
+      (if reached then fmtHitC ctx h ps else "401") ++ (if tr.isEmpty then "" else " mw=" ++ ".".intercalate tr)
+    | _ => fmtHitC ctx h ps
+  let behPanics := beh.any fun k => ["perr", "pstr", "pabort", "goexit"].contains k
+  let all := serveAllX st.pr m p dec behPanics
   let resp := st.pr.serveHTTP m p
   let det := match resp with
     | .route h ps => dec h ps
-    | _ => fmtResponse resp
+    | _ => fmtResponse resp behPanics
   if auth.isSome then r := r.addCover "req-with-jwt-token"
   -- correspondence
   if outs.isEmpty then r := r.mismatch sidx l.idx det "no-observation"
@@ -318,6 +358,8 @@ def runReq (r : Report) (st : St) (sidx : Nat) (l : Line) (m p : String) (auth :
     let kind := patKind (route.getD [])
     let cs := Spec.candidates st.tbl m toks
     r := r.addCover (if ps.isEmpty then "hit-literal-only" else if kind.contains 'l' then "hit-mixed" else "hit-vars-only")
+    if !outer.isEmpty then
+      r := r.addCover (if ps.isEmpty then "hit-literal-route-keeps-outer-vars" else "hit-vars-replace-outer-vars")
     if cs.length > 1 then r := r.addCover "hit-several-candidates"
     -- backtracking: where the chosen route has a variable, a literal child for the request's token
     -- existed (it is searched first and must have failed)
@@ -337,45 +379,94 @@ def runReq (r : Report) (st : St) (sidx : Nat) (l : Line) (m p : String) (auth :
   -- monitor on the implementation's own outcomes
   if hyp && outs.length > 1 then
     r := r.violation sidx l.idx s!"request {m} {p}: dispatch differs between runs [{" | ".intercalate outs}] on a table with one variable name per position"
-  for o in outs do
-    if o = "401" then
+  for oRaw in outsRaw do
+    let (o, status, endK, esc) := splitExtras oRaw
+    let panicked := endK.any fun k => ["perr", "pstr", "pabort", "goexit"].contains k
+    if (splitTrail o).1 = "401" then
+      let tr401 := (splitTrail o).2
       -- acceptable iff an admissible route was registered WithJwt and the token matches none of its secrets
       let adm := Spec.admissible st.tbl m (toksO.getD [])
       let ok := toksO.isSome && adm.any fun x =>
         match lookupRMeta st.rmeta x.method x.pats with
-        | some (jwt, _) => !(tokenOk jwt auth)
+        | some (jwt, layers) => !(tokenOk jwt auth) && ".".intercalate (runChain auth layers).1 == tr401
         | none => false
       r := r.addCover "req-401-unauthorized"
+      if tr401 ≠ "" then r := r.addCover "req-401-behind-WithChain-middlewares"
       if !ok then
         let why := if adm.isEmpty then "no route of the method matches"
-          else s!"the preferred match [{",".intercalate (adm.map (fmtRoute (toksO.getD [])))}] was not registered with a secret that rejects the token [{auth.getD "none"}]"
+          else s!"the preferred match [{",".intercalate (adm.map (fmtRoute (toksO.getD [])))}] was not registered with a secret that rejects the token [{auth.getD "none"}] behind the middlewares [{tr401}]"
         r := r.violation sidx l.idx s!"request {m} {p}: 401 Unauthorized but {why}"
+      if endK.isSome then
+        r := r.violation sidx l.idx s!"request {m} {p}: 401 Unauthorized but a user handler ran [{oRaw}]"
     else
       let (base, trail) := splitTrail o
-      match monitorReq st.tbl hyp (customOf st.pr) m p base with
+      match monitorReq st.tbl hyp (customOf st.pr) m p base outer with
       | some msg => r := r.violation sidx l.idx s!"request {m} {p}: {msg}"
       | none => pure ()
       -- rest.Server: engine.notFoundHandler forces the status 404 unless the custom handler wrote one itself
       match (base.splitOn " ").filter (· ≠ "") with
       | [hk, ck] =>
-        if srv ∧ hk.startsWith "nf=" ∧ ck.startsWith "code=" then
+        if srv ∧ hk.startsWith "nf=" ∧ ck.startsWith "code=" ∧ !panicked then
           let id := (dropStr 3 hk).toNat?.getD 0
           if (dropStr 5 ck).toNat? ≠ some ((ownCode id).getD 404) then
             r := r.violation sidx l.idx s!"request {m} {p}: the custom not-found handler nf={id} ran but the response status is [{dropStr 5 ck}], not [{(ownCode id).getD 404}] (no route matches: 404 unless the handler wrote a status itself)"
       | _ => pure ()
+      -- every outcome kind of the user handler: whatever it does, it is the handler the property names, and
+      -- the status a route handler writes is the status of the response
+      let userRan := match parseObs base with
+        | .hit _ _ => true | .customNF _ => true | .customNA h => h != corsNA | _ => false
+      match beh with
+      | some b =>
+        if userRan then
+          r := r.addCover (s!"beh-{b}-" ++ (match parseObs base with | .hit _ _ => "route" | _ => "custom"))
+          if endK ≠ some b ∧ (b.startsWith "p" ∨ b = "goexit" ∨ (parseObs base matches .hit _ _)) then
+            r := r.mismatch sidx l.idx s!"end={b}" oRaw
+          if esc.isSome then r := r.addCover s!"beh-escaped-{esc.getD ""}"
+        else if endK.isSome then
+          r := r.violation sidx l.idx s!"request {m} {p}: a user handler ran [{oRaw}] although the router answered itself"
+      | none =>
+        if endK.isSome ∨ esc.isSome then r := r.mismatch sidx l.idx "no-behaviour" oRaw
       match parseObs base with
       | .hit h _ =>
+        let want : Option String := match beh with
+          | some b => if b.startsWith "w" then some (dropStr 1 b) else none
+          | none => none
+        if !panicked ∧ status ≠ want then
+          r := r.violation sidx l.idx s!"request {m} {p}: route handler h={h} wrote status [{want.getD "none (200)"}] but the response status is [{status.getD "200"}]"
         let ms := rmetaOf h
         if ms.any fun x => x.1.isSome then r := r.addCover "hit-jwt-route-token-accepted"
+        if ms.any fun x => x.1.any fun ab => ab.2 != "" && auth == some ab.2 && ab.1 != ab.2 then
+          r := r.addCover "hit-jwt-route-token-signed-with-previous-secret"
         if trail ≠ "" then r := r.addCover "hit-behind-route-middlewares"
-        if !ms.isEmpty ∧ !(ms.any fun x => tokenOk x.1 auth && fmtTrail x.2 == trail) then
-          let regd := ms.map fun x => s!"jwt={(x.1.map fun ab => ab.1 ++ "," ++ ab.2).getD "off"} middlewares={fmtTrail x.2}"
+        if (trail.splitOn ".").any (·.startsWith "u") then r := r.addCover "hit-behind-Server.Use-middlewares"
+        if (trail.splitOn ".").any (·.startsWith "c") then r := r.addCover "hit-behind-WithChain-middlewares"
+        if !ms.isEmpty ∧ !(ms.any fun x => runChain auth x.2 == ((trail.splitOn ".").filter (· ≠ ""), true)) then
+          let regd := ms.map fun x => s!"jwt={(x.1.map fun ab => ab.1 ++ "," ++ ab.2).getD "off"} middlewares={".".intercalate ((x.2.filter fun l => match l with | .auth _ _ => false | _ => true).map Layer.tag)}"
           r := r.violation sidx l.idx s!"request {m} {p}: handler h={h} ran [middlewares={trail} token={auth.getD "none"}] but its route was registered with [{" | ".intercalate regd}]"
         if ms.isEmpty ∧ trail ≠ "" then
           r := r.violation sidx l.idx s!"request {m} {p}: handler h={h} ran behind middlewares [{trail}] of another route"
       | _ =>
         if trail ≠ "" then r := r.violation sidx l.idx s!"request {m} {p}: route middlewares [{trail}] ran but no route handler [{o}]"
   return r
+
+/-- index of the first registration the rule rejects (`none`: all accepted). -/
+def firstRejected (tbl : Spec.Table) : List Reg → Nat → Option Nat
+  | [], _ => none
+  | (m, p, item) :: rest, k =>
+    match Spec.register tbl m p item with
+    | (.ok, tbl') => firstRejected tbl' rest (k + 1)
+    | _ => some k
+
+/-- (group index, position in the group, length of the group) of the `k`-th registration. -/
+def locateReg : List (List Reg) → Nat → Nat → Nat × Nat × Nat
+  | [], k, gi => (gi, k, 0)
+  | g :: tl, k, gi => if k < g.length then (gi, k, g.length) else locateReg tl (k - g.length) (gi + 1)
+
+/-- the class of seeded change C09-8: the new key is a strict segment-wise prefix of a key stored earlier (its last
+node exists already as a pure intermediate node), or extends one. -/
+def prefixClass (stored : List (List String)) (pats : List String) : List String :=
+  (if stored.any (fun x => pats.length < x.length && x.take pats.length == pats) then ["new-route-is-strict-prefix-of-an-earlier-route"] else []) ++
+  (if stored.any (fun x => x.length < pats.length && pats.take x.length == x && x != [""]) then ["new-route-extends-an-earlier-route"] else [])
 
 def parseReg (s : String) : Option Reg :=
   match s.splitOn "," with
@@ -392,6 +483,7 @@ def runSection (r : Report) (s : Section) : Report := Id.run do
   if kvStr s.cfg "kind" = "server" then
     st := { st with pr := (newServer []).router }
     r := r.addCover (if kvStr s.cfg "mw" = "1" then "server-native-middlewares-on" else "server-no-middlewares")
+    r := r.addCover (if kvStr s.cfg "must" = "1" then "server-MustNewServer" else "server-NewServer")
   for l in s.lines do
     r := { r with ops := r.ops + 1 }
     match l.op with
@@ -416,6 +508,8 @@ def runSection (r : Report) (s : Section) : Report := Id.run do
         | .ok pr' => st := { st with pr := pr' }
         | .error _ => pure ()
         if st.served then r := r.addCover "route-after-requests"
+        if sv = .ok ∧ rooted p then
+          for c in prefixClass ((st.tbl.filter (·.method == m)).map (·.pats)) (cleanToks p) do r := r.addCover c
         st := { st with tbl := tbl' }
         if !(Spec.oneVarPerPosition st.tbl) then r := r.addCover "table-outside-hypothesis"
       | _, _, _ => r := r.mismatch s.idx l.idx "bad-op" (joinSp l.op)
@@ -440,16 +534,19 @@ def runSection (r : Report) (s : Section) : Report := Id.run do
         match (arg "nf=" [a]).bind parseItem, (arg "na=" [a]).bind parseItem with
         | some h, _ => some (.notFound h)
         | none, some h => some (.notAllowed h)
-        | none, none => none
+        | none, none => if a = "router" then some .router else if a = "cors" then some .cors
+                        else ((arg "chain=" [a]).bind String.toNat?).map .chain
       match o with
       | some o =>
         if st.built then
           if joinSp l.obs ≠ "late" then r := r.mismatch s.idx l.idx "late" (joinSp l.obs)
         else
-          st := { st with opts := st.opts ++ [o], pr := { (newServer (st.opts ++ [o])).router with core := st.pr.core } }
+          st := { st with opts := st.opts ++ [o], pr := { (newServer (st.opts ++ [o])).router with core := st.pr.core },
+                          chain := (newServer (st.opts ++ [o])).chain, cors := (newServer (st.opts ++ [o])).cors }
           r := r.addCover (match o with
             | .notFound none => "opt-notfound-nil" | .notFound _ => "opt-notfound-custom"
-            | .notAllowed none => "opt-notallowed-nil" | .notAllowed _ => "opt-notallowed-custom")
+            | .notAllowed none => "opt-notallowed-nil" | .notAllowed _ => "opt-notallowed-custom"
+            | .router => "opt-WithRouter" | .chain _ => "opt-WithChain" | .cors => "opt-WithCors")
           if joinSp l.obs ≠ "ok" then r := r.mismatch s.idx l.idx "ok" (joinSp l.obs)
       | none => r := r.mismatch s.idx l.idx "bad-op" (joinSp l.op)
     | "group" :: args =>
@@ -485,28 +582,106 @@ def runSection (r : Report) (s : Section) : Report := Id.run do
                 if rooted x ∧ (cleanToks w).take (cleanToks x).length ≠ cleanToks x ∧ cleanToks x ≠ [""] then
                   r := r.addCover "group-route-escapes-prefix"
               else if rooted i then r := r.mismatch s.idx l.idx s!"path-not-rooted={w}" s!"path={i}"
-    | ["bind"] =>
-      -- engine.bindRoutes(router)
+    | ["use", a] =>
+      -- Server.Use(middleware u<k>): appended to engine.middlewares; bindRoute reads them when the routes are bound
+      match (arg "id=" [a]).bind String.toNat? with
+      | some k =>
+        st := { st with built := true, uses := st.uses ++ [k] }
+        r := r.addCover (if st.groups.isEmpty then "srv-Use-before-AddRoutes" else "srv-Use-after-AddRoutes")
+        if joinSp l.obs ≠ "ok" then r := r.mismatch s.idx l.idx "ok" (joinSp l.obs)
+      | none => r := r.mismatch s.idx l.idx "bad-op" (joinSp l.op)
+    | [bindOp] =>
+      if bindOp ≠ "bind" ∧ bindOp ≠ "start" then r := r.mismatch s.idx l.idx "bad-op" (joinSp l.op) else
+      -- engine.bindRoutes(router) / Server.Start() = handleError(engine.start(router)): bindRoutes, then listen
       -- model: what the engine reads through its (possibly aliasing) groups now; monitor: the routes as the
       -- callers wrote them with the options applied to a copy
-      let res := bindAll st.pr.core st.api.regs
+      let res := bindGroups st.pr.core st.api.groupRegs
       let err := res.2
+      let tbl0 := st.tbl
       let specRegs := st.groups.flatMap Group.regs
       let (tbl', sv) := Spec.bindTable st.tbl specRegs
-      let rmeta := (st.groups.zip st.mws).flatMap fun (g, n) =>
-        g.regs.filterMap fun x => if rooted x.2.1 then some (x.1, cleanToks x.2.1, g.featured.set.jwt, n) else none
+      let rmetaNew := (st.groups.zip st.mws).flatMap fun (g, n) =>
+        g.regs.filterMap fun x => if rooted x.2.1 then some (x.1, cleanToks x.2.1, g.featured.set.jwt, bindChain st.chain g.featured.set.jwt st.uses n) else none
+      -- a route keeps the chain it was bound with (a second bind registers nothing new)
+      let rmeta := st.rmeta ++ rmetaNew.filter fun x => (lookupRMeta st.rmeta x.1 x.2.1).isNone
       st := { st with built := true, pr := { st.pr with core := res.1 }, tbl := tbl', rmeta := rmeta }
-      r := r.addCover ("bind-" ++ fmtBind err)
-      if fmtBind err ≠ joinSp l.obs then r := r.mismatch s.idx l.idx (fmtBind err) (joinSp l.obs)
-      if fmtSpecReg sv ≠ joinSp l.obs then
-        r := r.violation s.idx l.idx s!"engine.bindRoutes: property demands [{fmtSpecReg sv}] implementation did [{joinSp l.obs}]"
+      -- where the first rejected route sits (a rejection that is not the last route of its group / not in the last group)
+      let gl := st.groups.map Group.regs
+      match firstRejected tbl0 gl.flatten 0 with
+      | some k =>
+        let (gi, pos, glen) := locateReg gl k 0
+        r := r.addCover (if pos + 1 < glen then "bind-rejected-route-not-last-of-its-group" else "bind-rejected-route-last-of-its-group")
+        r := r.addCover (if gi + 1 < gl.length then "bind-rejected-in-a-group-that-is-not-the-last" else "bind-rejected-in-the-last-group")
+      | none => pure ()
+      let implV := joinSp l.obs
+      if bindOp = "bind" then
+        r := r.addCover ("bind-" ++ fmtBind err)
+        if fmtBind err ≠ implV then r := r.mismatch s.idx l.idx (fmtBind err) implV
+        if fmtSpecReg sv ≠ implV then
+          r := r.violation s.idx l.idx s!"engine.bindRoutes: property demands [{fmtSpecReg sv}] implementation did [{implV}]"
+      else
+        let fmtStart (v : String) : String := if v = "ok" then "listen" else "panic:" ++ v
+        r := r.addCover ("start-" ++ fmtStart (fmtBind err))
+        if fmtStart (fmtBind err) ≠ implV then r := r.mismatch s.idx l.idx (fmtStart (fmtBind err)) implV
+        if fmtStart (fmtSpecReg sv) ≠ implV then
+          r := r.violation s.idx l.idx s!"Server.Start: property demands [{if sv = .ok then "no rejection: the listener is reached" else "the registration is rejected: panic with " ++ fmtSpecReg sv}] implementation did [{implV}]"
       if !(Spec.oneVarPerPosition st.tbl) then r := r.addCover "table-outside-hypothesis"
+      for i in List.range st.tbl.length do
+        match st.tbl[i]? with
+        | some x => for c in prefixClass (((st.tbl.take i).filter (·.method == x.method)).map (·.pats)) x.pats do r := r.addCover ("bind-" ++ c)
+        | none => pure ()
     | "req" :: args =>
       match arg "m=" args, arg "p=" args with
       | some m, some p =>
         if kvStr s.cfg "kind" = "server" then st := { st with built := true }
-        r := runReq r st s.idx l m p (arg "auth=" args) (kvStr s.cfg "kind" = "server")
+        -- rest.WithCors: the CORS middleware in front of the patRouter answers every OPTIONS request itself (as implemented:
+        -- an OPTIONS route is never dispatched then; PropsEntry.cors_preflight_never_dispatches)
+        let srvModel : Server := { router := st.pr, cors := st.cors }
+        if srvModel.serveHTTP m p = .preflight then
+          r := r.addCover "req-cors-preflight-answered-by-the-middleware"
+          if rooted p ∧ !(Spec.candidates st.tbl m (cleanToks p)).isEmpty then r := r.addCover "req-cors-preflight-shadows-a-matching-OPTIONS-route"
+          if (joinSp (l.obs.drop 1)) ≠ "204 cors" then r := r.mismatch s.idx l.idx "204 cors" (joinSp (l.obs.drop 1))
+        else
+        r := runReq r st s.idx l m p (arg "auth=" args) (kvStr s.cfg "kind" = "server") (arg "ctx=" args) (arg "beh=" args)
         st := { st with served := true }
+      | _, _ => r := r.mismatch s.idx l.idx "bad-op" (joinSp l.op)
+    | ["herr", a] =>
+      -- handleError(err): every class of error value; a registration error (plain or wrapped) must panic with itself
+      match arg "k=" [a] with
+      | some k =>
+        let cls : Option (Bool × Bool) :=   -- (err == nil, errors.Is(err, http.ErrServerClosed))
+          if k = "nil" then some (true, false)
+          else if k = "closed" ∨ k = "wrapped-closed" then some (false, true)
+          else if ["badmethod", "wrapped-badpath", "dup", "typed-nil", "zero"].contains k then some (false, false)
+          else none
+        match cls with
+        | some (isNil, closed) =>
+          let want := if handleErrorPanics isNil closed then "panic:same-error" else "returned"
+          r := r.addCover s!"handleError-{k}"
+          -- (a typed-nil error is not nil: the start-up stops with a panic — the logging call dereferences it first)
+          let okObs := joinSp l.obs = want ∨ (k = "typed-nil" ∧ (joinSp l.obs).startsWith "panic:")
+          if !okObs then
+            r := r.mismatch s.idx l.idx want (joinSp l.obs)
+            if ["badmethod", "wrapped-badpath", "dup"].contains k then
+              r := r.violation s.idx l.idx s!"handleError({k}): a registration error must stop the start-up with that error [{want}], implementation did [{joinSp l.obs}]"
+        | none => r := r.mismatch s.idx l.idx "bad-op" (joinSp l.op)
+      | none => r := r.mismatch s.idx l.idx "bad-op" (joinSp l.op)
+    | "other" :: args =>
+      -- a second rest.Server alive at the same time: NewServer(), AddRoute(GET /other/:o -> 9999), bindRoutes
+      match arg "m=" args, arg "p=" args with
+      | some m, some p =>
+        let regsO : List Reg := [("GET", "/other/:o", some 9999)]
+        let prO : PatRouter := { (newServer []).router with core := (bindGroups {} [regsO]).1 }
+        let tblO := (Spec.bindTable [] regsO).1
+        let det := fmtResponse (prO.serveHTTP m p)
+        let impl := joinSp (l.obs.drop 1)
+        r := r.addCover "two-servers-alive"
+        r := r.addCover (match prO.serveHTTP m p with
+          | .route _ _ => "other-server-own-route" | .defaultNotAllowed _ => "other-server-405" | _ => "other-server-404")
+        if impl ≠ det then r := r.mismatch s.idx l.idx det impl
+        match monitorReq tblO true (customOf prO) m p impl with
+        | some msg => r := r.violation s.idx l.idx s!"second server, request {m} {p}: {msg}"
+        | none => pure ()
       | _, _ => r := r.mismatch s.idx l.idx "bad-op" (joinSp l.op)
     | "tadd" :: args =>
       match arg "p=" args, (arg "h=" args).bind parseItem with
@@ -527,6 +702,8 @@ def runSection (r : Report) (s : Section) : Report := Id.run do
         match res with
         | .ok t => st := { st with tree := t }
         | .error _ => pure ()
+        if sv = "ok" then
+          for c in prefixClass (st.ttbl.map (·.pats)) (Spec.rawKey p) do r := r.addCover ("tadd-" ++ c)
         match sv, item with
         | "ok", some h => st := { st with ttbl := st.ttbl ++ [{ method := "", pats := Spec.rawKey p, h := h }] }
         | _, _ => pure ()
@@ -593,8 +770,16 @@ def runSection (r : Report) (s : Section) : Report := Id.run do
             | _, _, some x => (.addOne x opts, [x])
             | _, _, _ => (.add 0 opts, [])
           let reused := kind = "add" ∧ (st.groups.any fun g => g.routes == routes)
-          st := { st with built := true, api := st.api.step op, groups := st.groups ++ [{ opts := opts, routes := routes }],
-                          mws := st.mws ++ [nmw] }
+          -- validateSecret: an option that panics leaves AddRoutes before engine.addRoutes — nothing is registered
+          let panics := op.panics
+          if panics then
+            st := { st with built := true, api := st.api.stepChecked op }
+            r := r.addCover "api-option-panics-short-secret"
+          else
+            st := { st with built := true, api := st.api.stepChecked op, groups := st.groups ++ [{ opts := opts, routes := routes }],
+                            mws := st.mws ++ [nmw] }
+          if panics != l.obs.contains "panic:secret" then
+            r := r.mismatch s.idx l.idx (if panics then "panic:secret" else "no-panic") (joinSp l.obs)
           -- coverage: the forms of the public API
           r := r.addCover (if kind = "add" then "api-AddRoutes" else "api-AddRoute")
           if reused then r := r.addCover "api-same-slice-added-again"
@@ -606,6 +791,13 @@ def runSection (r : Report) (s : Section) : Report := Id.run do
               | .pfx _ => "api-opt-WithPrefix" | .jwt _ => "api-opt-WithJwt" | .jwtTransition _ _ => "api-opt-WithJwtTransition"
               | .timeout _ => "api-opt-WithTimeout" | .maxBytes _ => "api-opt-WithMaxBytes"
               | .priority => "api-opt-WithPriority" | .sse => "api-opt-WithSSE")
+          for o in opts do
+            match o with
+            | .jwtTransition _ b =>
+              if b = "" then r := r.addCover "api-WithJwtTransition-empty-previous-secret"
+              if st.groups.any (fun g => g.featured.set.jwt.any fun ab => ab.1 == b) then
+                r := r.addCover "api-WithJwtTransition-previous-is-another-groups-current"
+            | _ => pure ()
           if nmw > 0 then r := r.addCover "api-WithMiddlewares"
           -- correspondence: the aliasing model
           let modelRoutes := st.api.regs
